@@ -56,6 +56,7 @@ def Ast.level : Ast → Nat
   | .bin op _ _ => (binLevel op).1
   | .neg _ => lvUnary
   | .call _ _ => lvTail
+  | .dot _ _ => lvTail
   | _ => lvAtom
 
 /-- constructs whose last component is a greedy `\p body` / `let …; body` (they extend as far to the
@@ -118,6 +119,9 @@ def node (full : Bool) : Ast → Bool → List String
   | .opDot op lhs f, tail => T[lhs, lvArrow, false] ++ [arrSrc op] ++ T[f, lvArrow + 1, tail]
   | .fn p b, _ => ["\\" ++ gap ++ patSrc p] ++ T[b, 0, true]
   | .call f a, _ => T[f, lvTail, false] ++ [noC ++ "("] ++ T[a, 0, true] ++ [")"]
+  | .dot (.ident ".") n, _ => ["." ++ n]
+  | .dot (.num k) n, _ => (if full then ["(", "(", toString k, ")", ")"] else ["(", toString k, ")"]) ++ ["." ++ n]
+  | .dot e n, _ => T[e, lvTail, false] ++ ["." ++ n]
   | .neg e, tail => ["-"] ++ (if e.isNeg then markFirst T[e, lvUnary, tail] else T[e, lvUnary, tail])
   | .bin op a b, tail =>
     match binLevel op with
